@@ -86,6 +86,13 @@ ConvMatchesBlock(flags, fs, ends) ==
   \A i \in 1..Len(fs) : (fs[i].fc > 0 /\ ends[i].iff = 1)
                         => PlayerDecision(flags, ends[i].mcls, NextFcIn(fs, i)) = ends[i].dec
 
+\* Snapshots after the first one.  A recording may embed them as a courtesy ("same": the state the run has
+\* reached anyway), because the run is discontinuous there ("needed": rollback - only the snapshot tells where
+\* the machine is), or carelessly ("stale": not the state the frames continue from).  Playback flag 4 says
+\* "ignore snapshots after the first"; it must be clear for "needed" and set for "stale".
+SnapshotUseMatches(flags, snapmode) == /\ (snapmode = "needed" => Bit(flags, 2) = 0)
+                                       /\ (snapmode = "stale" => Bit(flags, 2) = 1)
+
 -----------------------------------------------------------------------------
 (* Part 3 - the player's counters: p = [fi, fc, ii, cnt]                   *)
 (* fi frame index in the block (0 before the first), fc fetch counter,     *)
